@@ -105,7 +105,9 @@ Definition judge_c10 (c : c10case) : verdict :=
 
 Inductive c11case :=
 | mk_c11 (doc : obj) (patch : json) (impl_valid : bool) (impl : option obj)
-| mk_c11seq (doc : obj) (patches : list json) (impl_all_valid : bool) (impl : option obj).
+| mk_c11seq (doc : obj) (patches : list json) (impl_all_valid : bool) (impl : option obj)
+(* ietf-json-patches around dedicated actions that do change keys / services: judged against the model's fold *)
+| mk_c11mixed (doc : obj) (patches : list json) (impl_all_valid : bool) (impl : option obj).
 
 (* the key / service entries a document holds (absent, null and [] all mean none) *)
 Definition entries_of_member (k : string) (d : obj) : json := JArr (map JObj (parse_objects (lookup k d))).
@@ -144,6 +146,11 @@ Definition judge_c11 (c : c11case) : verdict :=
       else if negb (Bool.eqb (forallb (validate_with []) ps) iv) then Mismatch 6
       else if negb (patches_in_domain ps) then OutOfDomain 7
       else if andb iv (negb (opt_obj_equiv (apply_patches doc ps) impl)) then Mismatch 8
+      else Pass
+  | mk_c11mixed doc ps iv impl =>
+      if negb (Bool.eqb (forallb (validate_with []) ps) iv) then Mismatch 9
+      else if negb (patches_in_domain ps) then OutOfDomain 7
+      else if andb iv (negb (opt_obj_equiv (apply_patches doc ps) impl)) then Mismatch 10
       else Pass
   end.
 
